@@ -876,7 +876,15 @@ void run_bake(uint64_t seed, const sk_mask* mask, sk_result* out, int alloc_mode
 		}
 	}
 	else
+	{
 		sk_count("probe.liveness_only_sessions", 1);
+		/* nothing was altered: the session may fail, but two parties that both accept agree */
+		if (PT[0].accepted && PT[1].accepted && memcmp(PT[0].key, PT[1].key, 32))
+		{
+			sk_violate(out, "honest_keys_differ", "%s: messages were delayed, fragmented or lost but not altered, both parties returned ERR_OK and hold different keys", PN[c->proto]);
+			return;
+		}
+	}
 
 	/* ------------------------------ recovery: bounded liveness once faults stop */
 	{
